@@ -41,8 +41,13 @@ type Op struct {
 
 // Case: a placement per subscriber slot and a script.
 type Case struct {
-	Places []string `json:"places"` // A1 | A2 | B | C1 | C2 | raw (main object); A3 | B3: a proxy of the second object through session A / B
-	Ops    []Op     `json:"ops"`
+	// TerminateAt > 0: before step number TerminateAt (counted from 1) the second object is removed from its
+	// service. Its subscribers are told (their channels close); the cancel
+	// functions they still hold are called later, at a "cancel" step for their
+	// slot or at the end, and must not disturb anybody else.
+	TerminateAt int      `json:"terminate_at"`
+	Places      []string `json:"places"` // A1 | A2 | B | C1 | C2 | raw (main object); A3 | B3: a proxy of the second object through session A / B
+	Ops         []Op     `json:"ops"`
 }
 
 func placements() []string {
@@ -63,6 +68,9 @@ func genCase(t *rapid.T) Case {
 		c.Places = append(c.Places, rapid.SampledFrom(placements()).Draw(t, "place"))
 	}
 	steps := rapid.IntRange(2, 25).Draw(t, "steps")
+	if rapid.IntRange(0, 3).Draw(t, "terminate") == 0 {
+		c.TerminateAt = rapid.IntRange(1, steps).Draw(t, "terminateat")
+	}
 	for i := 0; i < steps; i++ {
 		op := Op{
 			Kind:   rapid.SampledFrom([]string{"sub", "sub", "sub", "cancel", "emit", "emit", "emit", "emit", "burst", "sub", "cancel", "emit", "stats", "trace"}).Draw(t, "kind"),
@@ -369,8 +377,57 @@ func checkCase(c Case) error {
 		return nil
 	}
 	var cancelledRaw []*subscription
+	obj2Gone := false
+	type staleSub struct {
+		slot *slot
+		sub  *subscription
+	}
+	var stale []staleSub
 	for i, op := range c.Ops {
+		if i+1 == c.TerminateAt && !obj2Gone {
+			if err := svc.Remove(obj2); err != nil {
+				return vt.Violationf("C13:setup", "step %d: removing the second object: %v", i, err)
+			}
+			obj2Gone = true
+			for _, sl := range slots {
+				if sl.obj != 1 {
+					continue
+				}
+				for sig, sub := range sl.subs {
+					select {
+					case <-sub.closed:
+					case <-time.After(bound):
+						return vt.Violationf(cls+":subscriber-not-told", "step %d: the object was removed but the channel of its subscriber on %s (%s) is still open after %v", i, sl.place, sig, bound)
+					}
+					if got := sub.got(); !sameSeq(got, sub.expected) {
+						return vt.Violationf(cls+":wrong-events", "step %d: when its object was removed the subscriber on %s of %s had received %v, expected exactly %v", i, sl.place, sig, got, sub.expected)
+					}
+					stale = append(stale, staleSub{sl, sub})
+					delete(sl.subs, sig)
+				}
+			}
+			vt.Label("object-removed-while-subscribed")
+		}
 		s := slots[op.Slot]
+		if obj2Gone && s.obj == 1 {
+			if op.Kind == "cancel" {
+				// a cancel function kept from before the removal is called now
+				for k, st := range stale {
+					if st.slot == s {
+						st.sub.cancel()
+						stale = append(stale[:k], stale[k+1:]...)
+						vt.Label("stale-cancel")
+						break
+					}
+				}
+			}
+			if op.Kind == "sub" || op.Kind == "cancel" {
+				continue
+			}
+		}
+		if obj2Gone && (op.Kind == "emit" || op.Kind == "burst" || op.Kind == "stats" || op.Kind == "trace") && op.Obj%2 == 1 {
+			continue
+		}
 		switch op.Kind {
 		case "stats", "trace":
 			action := uint32(81)
@@ -474,6 +531,34 @@ func checkCase(c Case) error {
 					if err := complete(sl, sub, fmt.Sprintf("step %d after emit", i)); err != nil {
 						return err
 					}
+				}
+			}
+		}
+	}
+	// the cancel functions left over from the removed object are called now;
+	// one more event per signal shows that nobody else was disturbed
+	if len(stale) > 0 {
+		for _, st := range stale {
+			st.sub.cancel()
+			vt.Label("stale-cancel")
+		}
+		for _, sig := range []string{"boom", "delay"} {
+			counter++
+			if sig == "boom" {
+				bomb.Helper.SignalBoom(counter)
+			} else {
+				bomb.Helper.UpdateDelay(counter)
+			}
+			for _, sl := range slots {
+				if sub, ok := sl.subs[sig]; ok && sl.obj == 0 {
+					sub.expected = append(sub.expected, counter)
+				}
+			}
+		}
+		for _, sl := range slots {
+			for _, sub := range sl.subs {
+				if err := complete(sl, sub, "after the stale cancel functions were called"); err != nil {
+					return err
 				}
 			}
 		}
